@@ -379,6 +379,11 @@ func genC19(c *Cfg, emit func([]string)) {
 			for _, a := range []string{"0", "1", "2", "49", "50", "51", "99", "100", "101", "199", "200", "201", "1000"} {
 				h = append(h, "buy u0 "+a+" USD", "buyback u0 "+a+" USD")
 			}
+			// the price changes afterwards: the limits stay as they were set
+			h = append(h, "bal", "setrate buyToken USD 50000000", "setrate buyBack USD 300000000")
+			for _, a := range []string{"1", "49", "50", "51", "99", "100", "101", "200", "201"} {
+				h = append(h, "buy u0 "+a+" USD", "buyback u0 "+a+" USD")
+			}
 			h = append(h, "bal")
 			emit(h)
 			nLim++
